@@ -45,7 +45,7 @@ func ringCase(w *coll, l int, revs []uint64, S uint64, kind string) {
 		rs[i] = lib.N(rv)
 	}
 	w.Add(lib.Case{Kind: kind, Coq: lib.App("KRing", lib.N(uint64(l)), lib.List(rs), lib.N(S), obsStr),
-		JSON:    map[string]interface{}{"op": "ring", "l": l, "revs": revs, "S": S, "obs": obsStr},
+		JSON:    map[string]interface{}{"op": "ring", "l": l, "revs": revs, "S": S, "obs": obsStr, "invalid": l < 1 || !increasing(revs)},
 		Trivial: len(revs) == 0, Outcomes: []string{"ring:" + outcome}})
 }
 
@@ -84,3 +84,12 @@ func ringCases(w *coll, rnd *lib.Rand, tier string) {
 	}
 }
 
+
+func increasing(revs []uint64) bool {
+	for i := 1; i < len(revs); i++ {
+		if revs[i-1] >= revs[i] {
+			return false
+		}
+	}
+	return true
+}
